@@ -60,12 +60,15 @@ static void run_sod(Rng& rng, long ncases) {
   long ncmp = 0, ninv = 0, nloc = 0;
   for (long cs = 0; cs < ncases; cs++) {
     // a third of the cases near Gamma = 1, where the wave pattern changes qualitatively (the fan tail crosses x = 0 at Gamma = 1.1148)
-    S G = (rng.below(3) == 0) ? (S)rng.uni(1.02L, 1.2L) : (S)rng.uni(1.05L, 3.0L);
+    // ... and one case in eight with a large ratio of specific heats (3..12): "for all Gamma > 1"
+    int gk = rng.below(8);
+    S G = (gk < 3) ? (S)rng.uni(1.02L, 1.2L) : (gk == 3) ? (S)rng.uni(3.0L, 12.0L) : (S)rng.uni(1.05L, 3.0L);
     masa_set_param<S>("Gamma", G);
     masa_set_param<S>("mu", (G - 1) / (G + 1));   // the property speaks of the solution for the current Gamma: mu kept consistent
     Riemann r = solve((Q)G);
     LOG.count("sod_gammas", 1);
-    S t = (S)rng.uni(0.05L, 3.0L);
+    // times over five decades (the solution is self-similar: only x/t matters), one case in four
+    S t = (rng.below(4) == 0) ? (S)powl(10.0L, rng.uni(-3.0L, 2.0L)) : (S)rng.uni(0.05L, 3.0L);
     // one point per region (+ extra random ones), library values kept for the reference-free invariants
     long double lrho[5], lm[5]; Q xis[5]; bool have[5] = {false, false, false, false, false};
     // 10 regular samples (two per region) + structured ones: both sides of every wave front at relative distances 1e-3 and 1e-2,
@@ -104,9 +107,14 @@ static void run_sod(Rng& rng, long ncases) {
       Q mref = rho * vel;
       double sc2 = (double)fabsq(mref) + (double)(rho * r.cl) * 1e-3;
       double e2 = (double)fabsq((Q)lmom - mref) / (u * (sc2 > 0 ? sc2 : 1));
+      // semantic bound 2^20 u; accuracy bound 2^14 u (the star state comes out of a bisection that runs to |f| < 5 eps: soak maxima after the
+      // rtbis repair are 680 u in the fan and 51 u in the star region - an iteration that stops early shows as 1e4..1e6 u)
+      const double SOD_ACC = 16384.0;
       if (!std::isfinite((long double)lr) || e1 > 1048576.0) viol_once(std::string("sod:density:") + RN[region], "density differs from the exact Riemann solution", det("rho", (long double)lr, rho));
+      else if (e1 > SOD_ACC) viol_once(std::string("sod:density-accuracy:") + RN[region], "density agrees with the exact Riemann solution only to " + std::to_string(e1) + " u", det("rho", (long double)lr, rho));
       else note(std::string("sod|rho|") + RN[region] + "|" + (sizeof(S) == 8 ? "d" : "l"), e1);
       if (!std::isfinite((long double)lmom) || e2 > 1048576.0) viol_once(std::string("sod:momentum:") + RN[region], "momentum differs from the exact Riemann solution", det("rho*u", (long double)lmom, mref));
+      else if (e2 > SOD_ACC) viol_once(std::string("sod:momentum-accuracy:") + RN[region], "momentum agrees with the exact Riemann solution only to " + std::to_string(e2) + " u", det("rho*u", (long double)lmom, mref));
       else note(std::string("sod|rho_u|") + RN[region] + "|" + (sizeof(S) == 8 ? "d" : "l"), e2);
       if (cs == 0 && k < 5) LOG.sample(det("rho", (long double)lr, rho));
       if (!have[region]) { have[region] = true; lrho[region] = (long double)lr; lm[region] = (long double)lmom; xis[region] = xi2; }
